@@ -38,6 +38,70 @@ fn preamble() -> Vec<u8> {
     f
 }
 
+fn close_frame() -> Vec<u8> {
+    let mut f = Vec::new();
+    wire::method(&mut f, 0, &AMQPClass::Connection(Cn::Close(connection::Close { reply_code: 320, reply_text: "CONNECTION_FORCED-glued".into(), class_id: 0, method_id: 0 })));
+    f
+}
+
+/// The server closes the connection right behind OpenOk; the first k bytes of its Connection.Close share the
+/// segment of OpenOk.  However the bytes are cut, the close must be acted on: calls fail with the server's
+/// reason, Connection::close reports it, nobody waits forever.
+fn run_close_glued(spec: &CaseSpec, text: bool) -> CaseReport {
+    let k = spec.params.get(1).copied().unwrap_or(0) as usize;
+    let mut cs = match &spec.choices {
+        Some(c) => ChoiceStream::replay(c.clone()),
+        None => ChoiceStream::generate(spec.seed ^ 0x5_0000 ^ k as u64),
+    };
+    let mut broker = BrokerCfg::default();
+    broker.s2c_lat_min_ns = 1_000;
+    broker.s2c_lat_max_ns = 1_000;
+    broker.eof_after_server_close = true;
+    broker.glue_after_open_ok = Some((close_frame(), k, GAP));
+    broker.glue_is_connection_close = true;
+    let mut net = NetCfg::default();
+    net.c2s_lat_min_ns = 1_000;
+    net.c2s_lat_max_ns = 1_000;
+    let threads = vec![ThreadPlan { chan_ids: vec![Some(1)], ops: vec![(0, Op::Qos { size: 0, count: 1, global: false })], close_channels: true }];
+    let plan = SessionPlan { opts: ConnOpts::default(), tuning: Tuning::default(), threads, owner_ops: vec![], close: CloseKind::Close, join_before_close: true };
+    let mut sched = SchedCfg::default();
+    sched.stick_pct = *pick(&mut cs, "stick", &[90u32, 50, 0]);
+    sched.hang_after_ns = 20_000_000_000;
+    let gen = Generated { plan, net, broker, sched, frame_max: 131072 };
+    let (res, world) = run_generated(&gen, cs, text, |_| {});
+    let mut rep = CaseReport::default();
+    fill_common(&mut rep, &res, &world);
+    rep.sample = serde_json::json!({"mode": "Connection.Close glued to OpenOk", "bytes_in_the_same_segment": k, "of": close_frame().len()});
+    rep.count("c06.close_glued_to_open_ok", 1);
+    for p in &res.run.panics {
+        rep.violate("panic", format!("{}@{}", p.thread, p.location), format!("{} panicked: {}", p.thread, p.message));
+    }
+    if let Some((sig, detail)) = hang_sig(&res.run.outcome) {
+        rep.violate("hang", sig, format!("Connection.Close behind OpenOk, {} of its {} bytes in OpenOk's segment: the close is never acted on: {}", k, close_frame().len(), detail));
+        return rep;
+    }
+    if rep.inconclusive.is_some() || !rep.violations.is_empty() {
+        return rep;
+    }
+    let want = "ServerClosedConnection(320,CONNECTION_FORCED-glued)".to_string();
+    let open = res.hist.conn.iter().find_map(|c| if let ConnRec::Open { result, .. } = c { Some(result.clone()) } else { None });
+    let close = res.hist.conn.iter().find_map(|c| if let ConnRec::Close { result, .. } = c { Some(result.clone()) } else { None });
+    let ok = match (&open, &close) {
+        // the attempt itself may already report the close (it arrived before open returned) ...
+        (Some(Err(e)), _) => *e == want,
+        // ... or the connection is returned and then reports it
+        (Some(Ok(())), Some(Err(e))) => *e == want,
+        _ => false,
+    };
+    if !ok {
+        rep.violate("ending", "close-behind-open-ok", format!("Connection.Close(320) behind OpenOk ({} of {} bytes in the same segment): open returned {:?}, close returned {:?}; expected the server's close to be reported", k, close_frame().len(), open, close));
+        return rep;
+    }
+    rep.nontrivial = true;
+    rep.distinct = spec.seed ^ 0x5_0000 ^ ((k as u64) << 20);
+    rep
+}
+
 /// A fixed, non-reactive server stream made of real frames, from a seed.
 fn build_stream(seed: u64) -> Stream {
     let mut cs = ChoiceStream::generate(seed ^ 0xC06);
@@ -199,10 +263,18 @@ impl Scenario for C06 {
             for k in 0..=preamble().len() {
                 v.push(CaseSpec { family: "cuts".into(), seed: s, params: vec![4, k as i64], choices: None });
             }
+            // the same with a Connection.Close glued to OpenOk (a server that closes at once): whatever the cut,
+            // the client must learn of the close
+            for k in 0..=close_frame().len() {
+                v.push(CaseSpec { family: "cuts".into(), seed: s, params: vec![5, k as i64], choices: None });
+            }
         }
         v
     }
     fn run_case(&self, spec: &CaseSpec, text: bool) -> CaseReport {
+        if spec.params.first().copied() == Some(5) {
+            return run_close_glued(spec, text);
+        }
         let st = build_stream(spec.seed);
         let l = st.bytes.len();
         let mode = spec.params.first().copied().unwrap_or(0);
